@@ -94,7 +94,7 @@ def mutate(root, rnd, t, ops=None):
     known = list(t.node_map)
     op = rnd.choice(ops or ["drop", "duplicate", "swap", "rename-unknown", "rename-misplaced", "corrupt-content-class", "corrupt-content-reject-class", "corrupt-content-unicode",
                             "add-attr", "remove-attr", "corrupt-attr", "add-unknown-child", "add-misplaced-child", "graft-under-metadata",
-                            "clear-content", "set-content-on-empty", "nonstring-attr"])
+                            "clear-content", "set-content-on-empty", "nonstring-attr", "twin-corrupt-attr-value", "twin-corrupt-earlier"])
     n = rnd.choice(nodes)
     where = [x.name for x in n.get_ancestry()] if hasattr(n, "get_ancestry") else [n.name]
     try:
@@ -145,6 +145,13 @@ def mutate(root, rnd, t, ops=None):
             n.content = None
         elif op == "set-content-on-empty":
             n.content = rnd.choice(["x", "", " "])
+        elif op in ("twin-corrupt-attr-value", "twin-corrupt-earlier") and n.parent is not None and n.attributes:
+            # two look-alike siblings (same name, content, attribute names, children) that differ in ONE attribute value
+            twin = n.copy()
+            n.parent.add_child(twin, index=n.parent.children.index(n) + 1)
+            victim = twin if op == "twin-corrupt-attr-value" else n
+            a = rnd.choice(list(victim.attributes))
+            victim.add_attribute(a, rnd.choice(["zzUnlisted", "", "Document", " system"]))
         elif op == "nonstring-attr":
             n.add_attribute(rnd.choice(["id", "scope"]), rnd.choice([None, 5, 1.5, True]))
         else:
